@@ -1,57 +1,153 @@
-(* SolveAllHistFacts.v — the histories run by K_history are instances of SolveAllFacts2.run_api, so the status-alphabet invariant
-   (api_status_invariant) speaks about exactly what is compared with the implementation. *)
+(* SolveAllHistFacts.v — the histories run by K_history: their solver calls are calls of SolveAllFacts2.run_api; status invariants
+   for histories with and without reindex(). *)
 From Coq Require Import PrimFloat ZArith List Bool Lia.
 Import ListNotations.
 Require Import PyBase Solver SolverF SolverFacts SolverFacts3 SolverExamples SolveAll SolveAllSpan SolveAllF SolveAllFacts SolveAllFacts2 SolveAllHistF.
 Require Fsic.Gen.Generated.
 Open Scope Z_scope.
 
-Definition to_api (d : mdesc) (span : list Z) (c : hcall) : api float Z :=
+(* the solver calls of a history as calls of SolveAllFacts2.run_api (on the span current at that step); edits have no counterpart *)
+Definition to_api (d : mdesc) (span : list Z) (c : hcall) : option (api float Z) :=
   match c with
-  | HSolveT o t => ApiSolveT float Z d o t
-  | HSolvePeriod o lab => ApiSolvePeriod float Z d o lab
-  | HSolve o start end_ => ApiSolve float Z d o span start end_
+  | HSolveT o t => Some (ApiSolveT float Z d o t)
+  | HSolvePeriod o lab => Some (ApiSolvePeriod float Z d o lab)
+  | HSolve o start end_ => Some (ApiSolve float Z d o span start end_)
+  | _ => None
   end.
 
-Definition hcall_opts (c : hcall) : fopts := match c with HSolveT o _ | HSolvePeriod o _ | HSolve o _ _ => o end.
+(* the `errors` option of a solver call (edits have none) *)
+Definition hcall_errors (c : hcall) : option errmode :=
+  match c with HSolveT o _ | HSolvePeriod o _ | HSolve o _ _ => Some (errors o) | _ => None end.
 
-Lemma run_hist_state sc d kind span n : forall cs s,
-  fst (run_hist sc d kind span n cs s) =
-  run_api float PrimFloat.sub PrimFloat.abs PrimFloat.ltb fisfin fzero (s_ev n sc) (s_before n sc) (s_after n sc) Z
-          (f_locate kind span []) (map (to_api d span) cs) s.
+Definition is_reindex (c : hcall) : bool := match c with HReindex _ => true | _ => false end.
+
+Lemma reindex_list_In {A} old_span new_span (fill : A) l x :
+  In x (reindex_list old_span new_span fill l) -> x = fill \/ In x l.
 Proof.
-  induction cs as [|c cs IH]; intros s; [reflexivity|].
-  cbn [run_hist map run_api].
-  destruct (run_hcall sc d kind span n c s) as [s1 o1] eqn:E1.
-  destruct (run_hist sc d kind span n cs s1) as [s2 os] eqn:E2. cbn [fst].
-  assert (Hs1 : s1 = run_api1 float PrimFloat.sub PrimFloat.abs PrimFloat.ltb fisfin fzero (s_ev n sc) (s_before n sc) (s_after n sc) Z
-                        (f_locate kind span []) (to_api d span c) s).
-  { destruct c as [o t|o lab|o st en]; cbn [run_hcall to_api run_api1] in *.
-    - destruct (solve_t_M _ _ _ _ _ _ _ _ _ _ _ _ _) as [s' [b|e]]; inversion E1; reflexivity.
-    - destruct (solve_period_M _ _ _ _ _ _ _ _ _ _ _ _ _ _ _) as [s' [b|e]]; inversion E1; reflexivity.
-    - destruct (solve_M _ _ _ _ _ _ _ _ _ _ _ _ _ _ _ _ _) as [s' [r|e]]; inversion E1; reflexivity. }
-  rewrite <- Hs1. rewrite <- IH, E2. reflexivity.
+  unfold reindex_list. intros H. apply in_map_iff in H as (lab & <- & _).
+  destruct (index_of lab old_span 0) as [p|]; [|left; reflexivity].
+  destruct (nth_in_or_default (Z.to_nat p) l fill) as [Hin| ->]; [right; exact Hin|left; reflexivity].
 Qed.
 
-(* the invariant for the histories K_history runs: every status after the history is one of the five SolutionStatus values — the
-   initial one, '.', 'F', 'S' (only if some call had errors='skip') or 'E' (only if some call had errors='raise') *)
-Theorem hist_status_invariant sc d kind span n cs s :
-  let s' := fst (run_hist sc d kind span n cs s) in
-  length (status s') = length (status s) /\ length (iters s') = length (iters s) /\
-  forall q x, nth_error (status s') q = Some x ->
-    In (st_char x) Generated.status_values /\
-    (nth_error (status s) q = Some x \/ x = Solved \/ x = Failed \/
-     (x = Skipped /\ exists c, In c cs /\ errors (hcall_opts c) = ESkip) \/
-     (x = ErrorSt /\ exists c, In c cs /\ errors (hcall_opts c) = ERaise)).
-Proof.
-  cbv zeta. rewrite run_hist_state.
-  pose proof (api_status_invariant float PrimFloat.sub PrimFloat.abs PrimFloat.ltb fisfin fzero (s_ev n sc) (s_before n sc) (s_after n sc) Z
-                (f_locate kind span []) (map (to_api d span) cs) s) as H. cbv zeta in H.
-  destruct H as (H1 & H2 & H3). split; [exact H1|]. split; [exact H2|].
-  intros q x Hq. destruct (H3 q x Hq) as [Ha Hx]. split; [exact Ha|].
-  destruct Hx as [Hx|[Hx|[Hx|[[Hx (c & Hin & He)]|[Hx (c & Hin & He)]]]]]; auto.
-  - right. right. right. left. split; [exact Hx|]. apply in_map_iff in Hin as (c0 & <- & Hin0). exists c0. split; [exact Hin0|].
-    destruct c0; exact He.
-  - right. right. right. right. split; [exact Hx|]. apply in_map_iff in Hin as (c0 & <- & Hin0). exists c0. split; [exact Hin0|].
-    destruct c0; exact He.
-Qed.
+Section HistFacts.
+  Variables (sc : scripts) (d : mdesc) (kind : nat).
+  Notation run_hcall := (run_hcall sc d kind).
+  Notation run_hist := (run_hist sc d kind).
+  Notation api1 s span := (run_api1 float PrimFloat.sub PrimFloat.abs PrimFloat.ltb fisfin fzero
+                                    (s_ev (length (status s)) sc) (s_before (length (status s)) sc) (s_after (length (status s)) sc) Z
+                                    (f_locate kind span [])).
+
+  (* a solver call of a history is the corresponding call of run_api and leaves the span alone *)
+  Lemma run_hcall_api c a s span : to_api d span c = Some a ->
+    fst (run_hcall c (s, span)) = (api1 s span a s, span).
+  Proof.
+    destruct c as [o t|o lab|o st en| | | |nsp]; cbn [to_api]; intros H; inversion H; subst;
+      cbn [SolveAllHistF.run_hcall SolveAllFacts2.run_api1].
+    - destruct (solve_t_M _ _ _ _ _ _ _ _ _ _ _ _ _) as [s' [b|e]]; reflexivity.
+    - destruct (solve_period_M _ _ _ _ _ _ _ _ _ _ _ _ _ _ _) as [s' [b|e]]; reflexivity.
+    - destruct (solve_M _ _ _ _ _ _ _ _ _ _ _ _ _ _ _ _ _) as [s' [r|e]]; reflexivity.
+  Qed.
+  (* copy(), whole-series and cell assignments never touch status / iterations / span *)
+  Lemma run_hcall_edit c s span : to_api d span c = None -> is_reindex c = false ->
+    status (fst (fst (run_hcall c (s, span)))) = status s /\ iters (fst (fst (run_hcall c (s, span)))) = iters s /\
+    snd (fst (run_hcall c (s, span))) = span.
+  Proof. destruct c; cbn [to_api is_reindex]; intros H1 H2; try discriminate; repeat split; reflexivity. Qed.
+
+  (* one step without reindex: lengths and span kept; every status is the previous one or one this call's policy may write *)
+  Lemma run_hcall_step c s span : is_reindex c = false ->
+    let s' := fst (fst (run_hcall c (s, span))) in
+    snd (fst (run_hcall c (s, span))) = span /\
+    length (status s') = length (status s) /\ length (iters s') = length (iters s) /\
+    forall q x, nth_error (status s') q = Some x ->
+      nth_error (status s) q = Some x \/ x = Solved \/ x = Failed \/
+      (x = Skipped /\ hcall_errors c = Some ESkip) \/ (x = ErrorSt /\ hcall_errors c = Some ERaise).
+  Proof.
+    intros Hr. cbv zeta. destruct (to_api d span c) as [a|] eqn:Ea.
+    - rewrite (run_hcall_api c a s span Ea). cbn [fst snd]. split; [reflexivity|].
+      pose proof (api_status_invariant float PrimFloat.sub PrimFloat.abs PrimFloat.ltb fisfin fzero
+                    (s_ev (length (status s)) sc) (s_before (length (status s)) sc) (s_after (length (status s)) sc) Z
+                    (f_locate kind span []) [a] s) as H. cbv zeta in H. cbn [run_api] in H.
+      destruct H as (H1 & H2 & H3). split; [exact H1|]. split; [exact H2|].
+      intros q x Hq. destruct (H3 q x Hq) as [_ Hx].
+      assert (Ho : hcall_errors c = Some (errors (api_opts float Z a))).
+      { destruct c; cbn [to_api] in Ea; inversion Ea; subst; reflexivity. }
+      destruct Hx as [Hx|[Hx|[Hx|[[Hx (c0 & [<-|[]] & He)]|[Hx (c0 & [<-|[]] & He)]]]]]; auto.
+      + right. right. right. left. split; [exact Hx|]. rewrite Ho, He. reflexivity.
+      + right. right. right. right. split; [exact Hx|]. rewrite Ho, He. reflexivity.
+    - destruct (run_hcall_edit c s span Ea Hr) as (Hs & Hi & Hsp). rewrite Hs, Hi. split; [exact Hsp|]. split; [reflexivity|].
+      split; [reflexivity|]. intros q x Hq. left. exact Hq.
+  Qed.
+
+  (* ---- histories WITHOUT reindex(): positional invariant ----
+     the series keep their length, the span stays, and every status after the history is one of the five SolutionStatus values:
+     the one the period started with, '.', 'F', 'S' (only if some call had errors='skip') or 'E' (only if some call had errors='raise') *)
+  Theorem hist_status_invariant : forall cs (s : fstate) span,
+    existsb is_reindex cs = false ->
+    let s' := fst (fst (run_hist cs (s, span))) in
+    length (status s') = length (status s) /\ length (iters s') = length (iters s) /\
+    forall q x, nth_error (status s') q = Some x ->
+      In (st_char x) Generated.status_values /\
+      (nth_error (status s) q = Some x \/ x = Solved \/ x = Failed \/
+       (x = Skipped /\ exists c, In c cs /\ hcall_errors c = Some ESkip) \/
+       (x = ErrorSt /\ exists c, In c cs /\ hcall_errors c = Some ERaise)).
+  Proof.
+    induction cs as [|c cs IH]; intros s span Hnr; cbv zeta.
+    - cbn [SolveAllHistF.run_hist fst]. split; [reflexivity|]. split; [reflexivity|].
+      intros q x Hq. split; [apply status_always_in_alphabet|left; exact Hq].
+    - cbn [existsb] in Hnr. apply orb_false_iff in Hnr as [Hc Hcs].
+      cbn [SolveAllHistF.run_hist]. destruct (run_hcall c (s, span)) as [[s1 sp1] o1] eqn:E1.
+      destruct (run_hist cs (s1, sp1)) as [[s2 sp2] os] eqn:E2. cbn [fst].
+      pose proof (run_hcall_step c s span Hc) as Hstep. cbv zeta in Hstep. rewrite E1 in Hstep. cbn [fst snd] in Hstep.
+      destruct Hstep as (_ & L1 & L2 & Hs1).
+      specialize (IH s1 sp1 Hcs). cbv zeta in IH. rewrite E2 in IH. cbn [fst] in IH. destruct IH as (M1 & M2 & Hs2).
+      split; [congruence|]. split; [congruence|].
+      intros q x Hq. destruct (Hs2 q x Hq) as [Ha Hx]. split; [exact Ha|].
+      destruct Hx as [Hx|[Hx|[Hx|[[Hx (c0 & Hin & He)]|[Hx (c0 & Hin & He)]]]]]; auto.
+      + destruct (Hs1 q x Hx) as [H0|[H0|[H0|[[H0 He]|[H0 He]]]]]; auto.
+        * right. right. right. left. split; [exact H0|]. exists c. split; [left; reflexivity|exact He].
+        * right. right. right. right. split; [exact H0|]. exists c. split; [left; reflexivity|exact He].
+      + right. right. right. left. split; [exact Hx|]. exists c0. split; [right; exact Hin|exact He].
+      + right. right. right. right. split; [exact Hx|]. exists c0. split; [right; exact Hin|exact He].
+  Qed.
+
+  (* ---- ANY history, reindex() included ----
+     every status is one of the five SolutionStatus values: one that was already somewhere in the start state, the fill '-' of a
+     reindex, '.', 'F', 'S' (only if some call had errors='skip') or 'E' (only if some call had errors='raise'); status and
+     iterations series stay equally long *)
+  Theorem hist_status_invariant_general : forall cs (s : fstate) span,
+    length (iters s) = length (status s) ->
+    let s' := fst (fst (run_hist cs (s, span))) in
+    length (iters s') = length (status s') /\
+    forall x, In x (status s') ->
+      In (st_char x) Generated.status_values /\
+      (In x (status s) \/ x = Unsolved \/ x = Solved \/ x = Failed \/
+       (x = Skipped /\ exists c, In c cs /\ hcall_errors c = Some ESkip) \/
+       (x = ErrorSt /\ exists c, In c cs /\ hcall_errors c = Some ERaise)).
+  Proof.
+    induction cs as [|c cs IH]; intros s span Hlen; cbv zeta.
+    - cbn [SolveAllHistF.run_hist fst]. split; [exact Hlen|]. intros x Hx. split; [apply status_always_in_alphabet|left; exact Hx].
+    - cbn [SolveAllHistF.run_hist]. destruct (run_hcall c (s, span)) as [[s1 sp1] o1] eqn:E1.
+      destruct (run_hist cs (s1, sp1)) as [[s2 sp2] os] eqn:E2. cbn [fst].
+      (* one step: lengths agree afterwards; a status after the step was there before, is the fill, or was written by c *)
+      assert (Hstep : length (iters s1) = length (status s1) /\
+                      forall x, In x (status s1) -> In x (status s) \/ x = Unsolved \/ x = Solved \/ x = Failed \/
+                        (x = Skipped /\ hcall_errors c = Some ESkip) \/ (x = ErrorSt /\ hcall_errors c = Some ERaise)).
+      { destruct (is_reindex c) eqn:Hr.
+        - destruct c; cbn [is_reindex] in Hr; try discriminate. cbn [SolveAllHistF.run_hcall] in E1. inversion E1; subst.
+          unfold reindex_state. cbn [status iters]. split; [unfold reindex_list; rewrite !map_length; reflexivity|].
+          intros x Hx. apply reindex_list_In in Hx as [->|Hx]; auto.
+        - pose proof (run_hcall_step c s span Hr) as H. cbv zeta in H. rewrite E1 in H. cbn [fst snd] in H.
+          destruct H as (_ & L1 & L2 & Hs1). split; [congruence|].
+          intros x Hx. apply In_nth_error in Hx as [q Hq]. destruct (Hs1 q x Hq) as [H0|[H0|[H0|[H0|H0]]]]; auto 6.
+          left. exact (nth_error_In _ _ H0). }
+      destruct Hstep as [Hl1 Hs1].
+      specialize (IH s1 sp1 Hl1). cbv zeta in IH. rewrite E2 in IH. cbn [fst] in IH. destruct IH as (M & Hs2).
+      split; [exact M|]. intros x Hx. destruct (Hs2 x Hx) as [Ha Hy]. split; [exact Ha|].
+      destruct Hy as [Hy|[Hy|[Hy|[Hy|[[Hy (c0 & Hin & He)]|[Hy (c0 & Hin & He)]]]]]]; auto 7.
+      + destruct (Hs1 x Hy) as [H0|[H0|[H0|[H0|[[H0 He]|[H0 He]]]]]]; auto 7.
+        * right. right. right. right. left. split; [exact H0|]. exists c. split; [left; reflexivity|exact He].
+        * right. right. right. right. right. split; [exact H0|]. exists c. split; [left; reflexivity|exact He].
+      + right. right. right. right. left. split; [exact Hy|]. exists c0. split; [right; exact Hin|exact He].
+      + right. right. right. right. right. split; [exact Hy|]. exists c0. split; [right; exact Hin|exact He].
+  Qed.
+End HistFacts.
